@@ -304,6 +304,8 @@ class ExprParser(RecursiveDescent):
             params.append(node)
             if not self.have("COMMA"):
                 break
+            if self.token.typ == "RPAREN":
+                self.error_msg("Expected an argument after ','")
         self.mustbe("RPAREN")
         self.exit("argument_list", str(params))
         return params
@@ -328,7 +330,9 @@ class ExprParser(RecursiveDescent):
         return shape
 
 def check_expr(expr, trace=False):
-    a = ExprParser(expr, trace=trace).expression()
+    parser = ExprParser(expr, trace=trace)
+    a = parser.expression()
+    parser.mustbe("EOF")  # reject trailing text
     return a
 
 def check_dimension(dim, attrs, trace=False):
@@ -347,7 +351,9 @@ def check_dimension(dim, attrs, trace=False):
         attrs["dimension"] = AssumedRank()
         attrs["assumed-rank"] = True
     else:
-        attrs["dimension"] = ExprParser(dim, trace=trace).dimension_shape()
+        parser = ExprParser(dim, trace=trace)
+        attrs["dimension"] = parser.dimension_shape()
+        parser.mustbe("EOF")  # reject trailing text
 
 ######################################################################
 
@@ -400,6 +406,8 @@ class Parser(ExprParser):
             if self.have("COMMA"):
                 if self.have("VARARG"):
                     raise NotImplementedError("varargs")
+                if self.token.typ == "RPAREN":
+                    self.error_msg("Expected a parameter after ','")
             else:
                 break
         self.mustbe("RPAREN")
